@@ -7,7 +7,7 @@
    actually decomposed (two independent runs `eigh`, `eigh'` where two calls are compared);
    the harness checks these hypotheses on every recorded LAPACK call. *)
 From Coq Require Import Reals ZArith List Permutation.
-From PV Require Import Num NumR Model_diag Proofs_diag.
+From PV Require Import Num NumR Model_diag Proofs_diag Model_diag_session Proofs_diag_session.
 Import ListNotations.
 Open Scope R_scope.
 
@@ -182,3 +182,101 @@ Example C13_nonvacuous :
        ((t / n, - (1 / n), 0), (0, 0, 1), (1 / n, t / n, 0)))) /\
   axes_flipped I3 ((1, 0, 0), (0, -1, 0), (0, 0, -1)).
 Proof. exact nonvacuous_diag. Qed.
+
+(* ---- call sequences on live objects that are modified in place (Model_diag_session) ----
+   `run false` is the source as it is; `pure_run` / `pure_out` evaluate the ONE-CALL model
+   functions above on the contents the argument has at the time of the call.  Any numeric
+   instance F (so also binary64), any LAPACK oracle, any history, any initial table of
+   remembered matrices. *)
+Theorem C13_session_is_pure : forall (F : Num) (eigvalsh : @sym3 F -> @eigvals F)
+    (eigh : @sym3 F -> @eigres F) (st : @store F) (c : @cache F) (h : list (@sop F)),
+  run eigvalsh eigh false (st, c) h = pure_run eigvalsh eigh st h.
+Proof. exact @run_false_pure. Qed.
+
+(* the call made after a history h: its effect is the pure function of the store after h; the
+   store after h is the one produced by the in-place modifications of h alone (diagnostic calls
+   modify nothing); and it is the same for another history, another object and another table
+   whenever the CONTENTS of the argument are the same *)
+Theorem C13_session_call_history_independent : forall (F : Num) (eigvalsh : @sym3 F -> @eigvals F)
+    (eigh : @sym3 F -> @eigres F) (st st' : @store F) (c c' : @cache F)
+    (h h' : list (@sop F)) (o o' : @sop F),
+  run eigvalsh eigh false (st, c) (h ++ [o]) =
+    run eigvalsh eigh false (st, c) h ++ pure_out eigvalsh eigh (store_after st h) o /\
+  store_after st h = store_after st (filter is_mutation h) /\
+  (same_call (store_after st h) (store_after st' h') o o' ->
+   pure_out eigvalsh eigh (store_after st h) o = pure_out eigvalsh eigh (store_after st' h') o').
+Proof. exact @session_call_pure. Qed.
+
+(* in-place frame rotation / reordering / sign relabelling of an object: equivalent texture *)
+Theorem C13_session_inplace_equivalent : forall (st : @store NumR) b o,
+  (b < length st)%nat -> inplace_symmetry (buf st b) b o ->
+  equivalent_texture (buf st b) (buf (mutate st o) b).
+Proof. exact inplace_equivalent. Qed.
+
+Theorem C13_session_pgr_inplace : forall (eigvalsh : S3 -> V3) (eigh : S3 -> EV)
+    (st : @store NumR) (c : @cache NumR) b r o,
+  (b < length st)%nat -> inplace_symmetry (buf st b) b o ->
+  let os := buf st b in let os' := buf (mutate st o) b in
+  vals_spec (scatter os r) (eigvalsh (scatter os r)) ->
+  vals_spec (scatter os' r) (eigvalsh (scatter os' r)) ->
+  run eigvalsh eigh false (st, c) [SPgr b r; o; SPgr b r] =
+    [OPgr (scatter os r) (symmetry_pgr eigvalsh os r);
+     OPgr (scatter os' r) (symmetry_pgr eigvalsh os r)].
+Proof. exact session_pgr_inplace. Qed.
+
+Theorem C13_session_coaxial_inplace : forall (eigvalsh : S3 -> V3) (eigh : S3 -> EV)
+    (st : @store NumR) (c : @cache NumR) b r1 r2 o,
+  (b < length st)%nat -> inplace_symmetry (buf st b) b o ->
+  let os := buf st b in let os' := buf (mutate st o) b in
+  vals_spec (scatter os r1) (eigvalsh (scatter os r1)) ->
+  vals_spec (scatter os r2) (eigvalsh (scatter os r2)) ->
+  vals_spec (scatter os' r1) (eigvalsh (scatter os' r1)) ->
+  vals_spec (scatter os' r2) (eigvalsh (scatter os' r2)) ->
+  run eigvalsh eigh false (st, c) [SCoaxial b r1 r2; o; SCoaxial b r1 r2] =
+    [OCoaxial (scatter os r1) (scatter os r2) (coaxial_index eigvalsh os r1 r2);
+     OCoaxial (scatter os' r1) (scatter os' r2) (coaxial_index eigvalsh os r1 r2)].
+Proof. exact session_coaxial_inplace. Qed.
+
+Theorem C13_session_bingham_inplace_rotation : forall (eigvalsh : S3 -> V3) (eigh : S3 -> EV)
+    (st : @store NumR) (c : @cache NumR) b r (Q : M3),
+  (b < length st)%nat -> orthogonal Q ->
+  let os := buf st b in let os' := map (rotate_frame Q) os in
+  eig_spec (scatter os r) (eigh (scatter os r)) ->
+  eig_spec (scatter os' r) (eigh (scatter os' r)) ->
+  simple_top (eigh (scatter os r)) ->
+  exists u u', run eigvalsh eigh false (st, c) [SBingham b r; SRotate b Q; SBingham b r] =
+                 [OBingham (scatter os r) u; OBingham (scatter os' r) u'] /\
+               u = bingham_average eigh os r /\ up_to_sign u' (mulv Q u).
+Proof. exact session_bingham_inplace_rotation. Qed.
+
+Theorem C13_session_bingham_inplace_perm_twofold : forall (eigvalsh : S3 -> V3) (eigh : S3 -> EV)
+    (st : @store NumR) (c : @cache NumR) b r o,
+  (b < length st)%nat ->
+  (exists p, o = SPermute b p /\ Permutation p (seq 0 (length (buf st b)))) \/
+  (exists ss, o = SFlip b ss /\ length ss = length (buf st b) /\ Forall sign3 ss) ->
+  let os := buf st b in let os' := buf (mutate st o) b in
+  eig_spec (scatter os r) (eigh (scatter os r)) ->
+  eig_spec (scatter os' r) (eigh (scatter os' r)) ->
+  simple_top (eigh (scatter os r)) ->
+  exists u u', run eigvalsh eigh false (st, c) [SBingham b r; o; SBingham b r] =
+                 [OBingham (scatter os r) u; OBingham (scatter os' r) u'] /\
+               u = bingham_average eigh os r /\ up_to_sign u' u.
+Proof. exact session_bingham_inplace_same. Qed.
+
+(* an implementation that remembers the scatter matrix per (object, row) and does not
+   invalidate it when the contents change: call, refill, call hands LAPACK the OLD matrix *)
+Theorem C13_session_memo_refuted :
+  exists (st : @store NumR) (h : list (@sop NumR)),
+    forall (eigvalsh : S3 -> V3) (eigh : S3 -> EV),
+      scatters_of (run eigvalsh eigh true (st, []) h) <> scatters_of (pure_run eigvalsh eigh st h) /\
+      scatters_of (run eigvalsh eigh false (st, []) h) = scatters_of (pure_run eigvalsh eigh st h).
+Proof. exact memo_refuted. Qed.
+
+Example C13_session_nonvacuous :
+  let st : @store NumR := [[I3]] in
+  (0 < length st)%nat /\
+  inplace_symmetry (buf st 0) 0 (SRotate 0 Iyx) /\
+  inplace_symmetry (buf st 0) 0 (SPermute 0 [0%nat]) /\
+  inplace_symmetry (buf st 0) 0 (SFlip 0 [((1, -1, -1) : V3)]) /\
+  same_call st (store_after st [SFill 0 [Iyx]; SPgr 0 1; SFill 0 [I3]]) (SPgr 0 2) (SPgr 0 2).
+Proof. exact nonvacuous_session. Qed.
